@@ -124,7 +124,8 @@ def selftest():
     assert wrap_law(5.0, 0, 2, 2.0) is not None      # half open for floats
     assert wrap_law(3, 0.5, 2, 0) is not None         # below a float bound
     assert wrap_law(1, 2, 0, 99) is None              # reversed: don't-care
-    assert fold_law(2.5, 0, 2, 1.5) is None and fold_law(5, 0, 2, 3) is not None
+    assert fold_law(2.5, 0, 2, 1.5) is None
+    assert fold_law(5, 0, 2, 3) is not None
     assert fold_law(7, 1, 1, 1) is None and fold_law(7, 1, 1, 2) is not None
     assert idempotent_law(2, 2) is None and idempotent_law(2, 1) is not None
     # 5.round(3) = 6, 4.round(3) = 3, 2.25.round(0.5) = 2.5
@@ -141,7 +142,8 @@ def selftest():
     assert roundup_side_law(2.25, 0.5, 2.0) is not None
     assert trunc_side_law(-2.25, 0.5, -2.5) is None
     assert trunc_side_law(-2.25, 0.5, -2.0) is not None
-    assert mod_nonneg_law(-1, 3, 2) is None and mod_nonneg_law(-1, 3, -1)
+    assert mod_nonneg_law(-1, 3, 2) is None
+    assert mod_nonneg_law(-1, 3, -1)
     assert mod_nonneg_law(-1, -3, -1) is None
     assert mod_below_law(5, 3, 2) is None and mod_below_law(5, 3, 5)
     assert inverse_law(69.0, 69.0000000001) is None
